@@ -97,6 +97,13 @@ class NF:
     def pow(self, b, e):
         if e == ('num', 1):
             return b
+        if isinstance(b, tuple) and b[0] == 'num' and isinstance(e, tuple) and e[0] == 'num' and isinstance(b[1], (int, float)) \
+                and isinstance(e[1], (int, float)) and b[1] != 0:
+            try:
+                v = float(b[1]) ** e[1]
+                return ('num', int(v) if v == int(v) else v)
+            except (OverflowError, ValueError):
+                pass
         if isinstance(b, tuple) and b and b[0] == 'pow':
             return ('pow', b[1], self.mul([b[2], e]))
         return ('pow', b, e)
@@ -227,6 +234,21 @@ class NF:
             name = e.func.id
         if name == 'len' and len(args) == 1 and args[0][0] == 'name' and args[0][1] in self.batch_names:
             return ('BATCH',)
+        if dotted and dotted in self.prog.functions and not e.keywords and depth <= 6:
+            g = self.prog.functions[dotted]
+            if g.cls is None and g.outer is None and g.name.startswith('_') and len(g.params) == len(args):
+                sub = NF(self.prog, g, batch_names=self.batch_names)
+                sub.env = dict(zip(g.params, args))
+                ok = True
+                for s_ in g.body():
+                    if isinstance(s_, ast.Assign) and len(s_.targets) == 1 and isinstance(s_.targets[0], ast.Name):
+                        sub.env[s_.targets[0].id] = sub.nf(s_.value, depth + 1)
+                    elif isinstance(s_, ast.Return) and s_.value is not None:
+                        return sub.nf(s_.value, depth + 1)
+                    elif isinstance(s_, ast.Expr) and isinstance(s_.value, ast.Constant):
+                        continue
+                    else:
+                        break
         if name == 'pow' and len(args) == 2:
             return self.pow(args[0], args[1])
         if name in ('numpy.mean', 'numpy.std', 'numpy.min', 'numpy.max', 'numpy.sum', 'numpy.var'):
